@@ -195,7 +195,11 @@ var getValRe = regexp.MustCompile(`\(\s*([A-Za-z0-9_.$!@]+)\s+(true|false)\s*\)`
 // Returns the set of candidate indexes shown falsifiable (in one model) or nil
 // if all hold. ok=false when the solver could not decide (then all are dropped).
 func (x *Exec) falsified(st *State, terms []string, tag string) (bad map[int]bool, decided bool) {
-	if x.inferQueries > 100 {
+	budget := 100
+	if x.rootSpec != nil && !x.rootSpec.Implicit {
+		budget = 400
+	}
+	if x.inferQueries > budget {
 		return nil, false // budget of this function exhausted: remaining candidates are dropped
 	}
 	names := make([]string, len(terms))
